@@ -19,7 +19,8 @@ Record hcfg := {
   h_dup_relock : bool;    (* addSignalUser on a known id: RemoveHandler -> closer -> RemoveHandler on the held mutex *)
   h_uid_global : bool;    (* ... ids compared without the connection *)
   h_write_blocks : bool;  (* Send blocks for ever when the peer does not read (no write deadline) *)
-  h_removed_answers : bool (* serviceImpl.Remove leaves the mailbox: a terminated object keeps answering *)
+  h_removed_answers : bool; (* serviceImpl.Remove leaves the mailbox: a terminated object keeps answering *)
+  h_other_types_run : bool  (* the stubs switch on the action only: Capability and Cancel frames run the method and are answered *)
 }.
 Definition hclean (g : hcfg) : Prop := h_dup_relock g = false /\ h_write_blocks g = false.
 
@@ -139,6 +140,9 @@ Definition obj_exec (st : hstate) (x : obj) (c : nat) (f : hframe)
   | KAuth =>  (* serviceAuthenticate.Receive: a plain Actor, it answers every frame *)
       Some (same, [(c, match k with PGood => reply f | _ => error f end)], None)
   | _ =>
+  if negb (h_other_types_run g) && negb ((f_type f =? T_call) || (f_type f =? T_post)) then
+    Some (same, [], None)   (* stubObject.Receive: only call and post messages run a method *)
+  else
   if f_act f =? A_register then
     match k with
     | PArgs oid sig uid =>
